@@ -251,7 +251,22 @@ def run(ctx: Any, prog: Program) -> None:
     if len(hw) != 1 or len(hr) != 1:
         raise AnalysisError('entity header pack/unpack not found')
     rnames = [dotted(e) for e in hr[0].targets[0].elts]                      # type: ignore[attr-defined]
-    wargs = hw[0].args
+    # locals assigned exactly once stand for their definition (`kv_count = sum(...)`; `pack(flag_bits, base_count, kv_count, ...)`)
+    _defs: Dict[str, List[ast.AST]] = {}
+    for n_ in walk_no_nested(es):
+        if isinstance(n_, (ast.Assign, ast.AnnAssign)) and n_.value is not None:
+            for t_ in (n_.targets if isinstance(n_, ast.Assign) else [n_.target]):
+                if isinstance(t_, ast.Name):
+                    _defs.setdefault(t_.id, []).append(n_.value)
+        elif isinstance(n_, ast.AugAssign) and isinstance(n_.target, ast.Name):
+            _defs.setdefault(n_.target.id, []).extend([n_.value, n_.value])
+
+    class _Subst(ast.NodeTransformer):
+        def visit_Name(self, node: ast.Name) -> ast.AST:
+            if isinstance(node.ctx, ast.Load) and len(_defs.get(node.id, [])) == 1:
+                return self.visit(ast.parse(ast.unparse(_defs[node.id][0]), mode='eval').body)
+            return node
+    wargs = [ast.fix_missing_locations(ast.copy_location(_Subst().visit(ast.parse(ast.unparse(a), mode='eval').body), a)) for a in hw[0].args]
     ctx.check('C16.Q1', len(rnames) == len(wargs) == 6, db, hw[0], f'entity header: {len(wargs)} values packed, {len(rnames)} unpacked', func='ent_serialise', text='entity header arity')
     # reader: count variable -> collection filled by the loop it bounds
     rcoll: Dict[str, str] = {}
@@ -288,13 +303,24 @@ def run(ctx: Any, prog: Program) -> None:
     ctx.check('C16.Q1', yielded == ['keyvalues', 'inputs', 'outputs'] and [rcoll.get(x) for x in loops_r] == ['bases', 'keyvalues', 'inputs', 'outputs'], db, es,
               f'record order: writer iterates {yielded} (after bases), reader loops fill {[rcoll.get(x) for x in loops_r]}', func='ent_serialise', text='collection order')
     # flag bits: a byte into which the writer ORs 128 must be tested with & 128 and masked with & 127 by the reader
+    def cint(n: ast.AST) -> Optional[int]:
+        if isinstance(n, ast.Constant) and isinstance(n.value, int) and not isinstance(n.value, bool):
+            return n.value
+        if isinstance(n, (ast.Name, ast.Attribute)):
+            try:
+                v = fold.fold(n, {})
+            except Exception:
+                return None
+            return v if isinstance(v, int) and not isinstance(v, bool) else None
+        return None
+
     def and_consts(fn: ast.AST, var: str) -> Set[int]:
-        return {n.right.value for n in ast.walk(fn) if isinstance(n, ast.BinOp) and isinstance(n.op, ast.BitAnd) and dotted(n.left) == var and isinstance(n.right, ast.Constant) and isinstance(n.right.value, int)}
+        return {cint(n.right) for n in ast.walk(fn) if isinstance(n, ast.BinOp) and isinstance(n.op, ast.BitAnd) and dotted(n.left) == var and cint(n.right) is not None}      # type: ignore[misc]
 
     def or_consts(fn: ast.AST, var: str) -> Set[int]:
-        out = {n.value.value for n in ast.walk(fn) if isinstance(n, ast.AugAssign) and isinstance(n.op, ast.BitOr) and dotted(n.target) == var and isinstance(n.value, ast.Constant)}
-        out |= {n.right.value for n in ast.walk(fn) if isinstance(n, ast.BinOp) and isinstance(n.op, ast.BitOr) and var in ast.unparse(n.left) and isinstance(n.right, ast.Constant) and isinstance(n.right.value, int)}
-        return out
+        out = {cint(n.value) for n in ast.walk(fn) if isinstance(n, ast.AugAssign) and isinstance(n.op, ast.BitOr) and dotted(n.target) == var and cint(n.value) is not None}
+        out |= {cint(n.right) for n in ast.walk(fn) if isinstance(n, ast.BinOp) and isinstance(n.op, ast.BitOr) and var in ast.unparse(n.left) and cint(n.right) is not None}
+        return out      # type: ignore[return-value]
     for wfn, rfn, wvar, rvar in (('kv_serialise', 'kv_unserialise', 'value_type', 'value_ind'), ('kv_serialise', 'kv_unserialise', 'power', 'power'), ('ent_serialise', 'ent_unserialise', 'FILE_TYPE_INDEX[res.type]', 'file_ind')):
         wo, ra = or_consts(db.func(wfn), wvar), and_consts(db.func(rfn), rvar)
         if not wo or not ra:
@@ -465,8 +491,13 @@ def run(ctx: Any, prog: Program) -> None:
     kinds = {'SPAWNFLAGS': vt.members['SPAWNFLAGS'], 'CHOICES': vt.members['CHOICES'], 'BOOL': vt.members['BOOL'], 'STRING': vt.members['STRING']}
     raw_slots: List[Tuple[ast.AST, str]] = []
     kexp = fgd.func('KVDef.export')
+    # per-row tag sets: the last element unpacked from self.flags_list / self.choices_list rows (whatever it is called); taken as empty
+    row_tags = {l.target.elts[-1].id: () for l in ast.walk(kexp) if isinstance(l, ast.For) and dotted(l.iter) in ('self.flags_list', 'self.choices_list')
+                and isinstance(l.target, ast.Tuple) and isinstance(l.target.elts[-1], ast.Name)}
+    row_defaults = {l.target.elts[2].id: True for l in ast.walk(kexp) if isinstance(l, ast.For) and dotted(l.iter) == 'self.flags_list' and isinstance(l.target, ast.Tuple) and len(l.target.elts) == 4
+                    and isinstance(l.target.elts[2], ast.Name)}
     for (kname, km), dn, df, ds in itertools.product(kinds.items(), ('', 'x'), ('', 'x'), ('', 'x')):
-        vals = {'self._type': km, 'self.type': km, 'self.disp_name': dn, 'self.default': df, 'self.desc': ds, 'self.readonly': False, 'self.reportable': False, 'tags': (), 'custom_syntax': True, 'label_spawnflags': True,
+        vals = {**row_tags, **row_defaults, 'self._type': km, 'self.type': km, 'self.disp_name': dn, 'self.default': df, 'self.desc': ds, 'self.readonly': False, 'self.reportable': False, 'tags': (), 'custom_syntax': True, 'label_spawnflags': True,
                 'isinstance(self._type, ValueTypes)': True, 'self._type.has_list': kname in ('SPAWNFLAGS', 'CHOICES'), 'flag_default': True, 'all((x in \'0123456789-\' for x in default_str))': False}
         le = LineEmit(fgd, ffold, vals, raw_slots)
         le.block(kexp.body)
